@@ -74,6 +74,10 @@ pub struct Ctx<'u> {
     pub sel: Props,
     /// C13 growth bound as a state invariant: capacity() < .0 or <= .1
     pub growth_bound: Option<(usize, usize)>,
+    /// non-zero in post-fault continuation runs: structure / registry /
+    /// recorded-sum rules are attributed to these properties, accounting
+    /// pruning is off (a torn operation legitimately leaves sizes stale)
+    pub fault_props: Props,
 }
 
 /// Panic payload -> readable string; distinguishes injected panics.
@@ -109,6 +113,9 @@ pub fn rebuild<'u>(u: &'u Universe, cfg: &Config, hist: &[Op]) -> Exec<'u> {
     let mut ex = Exec::new(u, cfg);
     for &h in hist {
         let _ = apply_caught(&mut ex, h);
+        if !matches!(h, Op::ArmFuel { .. }) {
+            set_fuel(None);
+        }
     }
     ex
 }
@@ -202,7 +209,7 @@ pub fn run_transition(
             return TransOut {
                 post_key: None,
                 viol,
-                machinery: Some("replay of a witness history reached a different state".into()),
+                machinery: Some(format!("replay of a witness history reached a different state: stored {:?} replayed {:?}", k, pre.key)),
             };
         }
         st.replays_validated += 1;
@@ -222,7 +229,7 @@ pub fn run_transition(
             st.rule("C07.structure");
             st.pruned_corrupt += 1;
             viol.push(v(
-                p(7),
+                p(7) | ctx.fault_props,
                 "C07.structure",
                 format!("after the operation the list/table structure is incoherent: {why}"),
             ));
@@ -243,14 +250,26 @@ pub fn run_transition(
         Ok(k) => k,
         Err(why) => {
             st.pruned_corrupt += 1;
-            viol.push(v(p(7), "C07.traversal", why));
+            viol.push(v(p(7) | ctx.fault_props, "C07.traversal", why));
             std::mem::forget(ex.cache.take());
             viol.retain(|x| x.props & ctx.sel != 0);
             return TransOut { post_key: None, viol, machinery: None };
         }
     };
     for rv in take_reg_violations() {
-        viol.push(v(p(6) | p(7), "C06/C07.registry", rv));
+        viol.push(v(p(6) | p(7) | ctx.fault_props, "C06/C07.registry", rv));
+    }
+    let mut recorded_ok = true;
+    if ctx.fault_props != 0 {
+        st.rule("C16.recorded-sum");
+        if post_walk.recorded_sum != post_dump.current_size {
+            recorded_ok = false;
+            viol.push(v(
+                ctx.fault_props,
+                "C16.recorded-sum",
+                format!("current_size() = {} but the sizes recorded for the remaining entries sum to {}", post_dump.current_size, post_walk.recorded_sum),
+            ));
+        }
     }
 
     let o = &post_obs;
@@ -687,7 +706,9 @@ pub fn run_transition(
     }
 
     // ---- whole life ends: release everything, drop the cache (C06 terminal: drop)
-    let expand = if let Some(why) = insane(o, e) {
+    let expand = if ctx.fault_props != 0 {
+        recorded_ok
+    } else if let Some(why) = insane(o, e) {
         let _ = why;
         st.pruned_insane += 1;
         false
@@ -697,11 +718,11 @@ pub fn run_transition(
     ex.release();
     let dropped_ok = catch_unwind(AssertUnwindSafe(|| drop(ex.cache.take())));
     if dropped_ok.is_err() {
-        viol.push(v(p(6) | p(7), "C07.drop-panicked", "dropping the cache panicked".into()));
+        viol.push(v(p(6) | p(7) | ctx.fault_props, "C07.drop-panicked", "dropping the cache panicked".into()));
     }
     st.rule("C06.final");
     for rv in take_reg_violations() {
-        viol.push(v(p(6) | p(7), "C06/C07.registry", rv));
+        viol.push(v(p(6) | p(7) | ctx.fault_props, "C06/C07.registry", rv));
     }
     let still: Vec<u64> = live_serials();
     if !still.is_empty() {
